@@ -215,7 +215,7 @@ def run_binders(rep):
 
 
 # ---- queries ------------------------------------------------------------------------------------------
-QMODEL_DECL = "int a, b; clock x, y; bool p, q; int arr[3]; double z; broadcast chan ch; hybrid clock hx;"
+QMODEL_DECL = "int a, b; clock x, y; bool p, q; int arr[3]; double z; broadcast chan ch; hybrid clock hx; const string qpath = \"out.json\";"
 POOL = ["1", "1.5", "a", "a + b", "a < b", "p && q", "p || q", "! p", "p ? a : b", "P.L1", "arr [ a ]",
         "forall ( i : int[0,1] ) arr [ i ] > 0", "P.L1 && x < 5", "a == 1", "true", "not p", "x <= 5", "P.k > 0"]
 BOOLS = ["p", "a < b", "p && q", "p || q", "! p", "P.L1", "forall ( i : int[0,1] ) arr [ i ] > 0", "P.L1 && x < 5",
@@ -270,6 +270,8 @@ def query_forms():
           ("mitl||", "Pr ( ( X {p} ) || ( {q} ) )"), ("mitl-nested", "Pr ( ( ( X {p} ) U [ 0 , 3 ] ( <> [ 1 , 2 ] {q} ) ) )"),
           ("mitl-mixed", "Pr ( ( ( X {p} ) || ( {q} ) ) && ( ( {q} R [ 0 , 1 ] {p} ) ) )"), ("mitl-atom", "Pr {p}"),
           ("control-buchi", "control: A[] ( {p} and A<> {q} )")]
+    # a bound on a clock that is chosen by an expression
+    F += [("Pr-bound-clock-expression", "Pr[( p ? x : y )<=10] ( <> {p} )"), ("E-bound-clock-expression", "E[( p ? x : y )<=10; 5] ( max: {n} )")]
     # comparisons of two probabilities whose sides are bounded in different ways (time, steps, clocks)
     kinds = [("time", "<=10"), ("steps", "#<=5"), ("clock-x", "x<=7"), ("clock-y", "y<=3")]
     for (n1, b1) in kinds:
@@ -290,6 +292,7 @@ def strategy_forms():
             ("under-E", "E[<=10; 100] ( max: {n} ) under S9"), ("under-sup", "sup: {n} under S8"), ("under-control", "control: A<> {p} under S8"),
             ("under-minE", "minE ( {n} ) [<=10] : <> {p} under S8"), ("imitate", "strategy S10 = minE ( {n} ) [<=10] : <> {p} imitate S9"),
             ("under-imitate", "strategy S11 = maxE ( {n} ) [<=10] : <> {p} under S8 imitate S9"), ("saveStrategy", "saveStrategy ( \"file\" , S8 )"),
+            ("saveStrategy-constant", "saveStrategy ( qpath , S8 )"),
             ("under-mitl", "Pr ( <> [ 0 , 5 ] {p} ) under S9")]
 
 
